@@ -24,12 +24,16 @@ ALL4 = ["digraph", "sync_digraph", "ungraph", "sync_ungraph"]
 PROPS = {
     "C04": dict(kinds=["bfs"], dirs=["out", "in"], cyc=[False], flavours=ALL4),
     "C05": dict(kinds=["dfs"], dirs=["out", "in"], cyc=[False], flavours=ALL4),
-    "C06": dict(kinds=["pfsmin", "pfsmax"], dirs=["out", "in"], cyc=[False], flavours=ALL4, cmp=True),
-    "C07": dict(kinds=ALLK, dirs=["out", "in"], cyc=[False, True], flavours=ALL4, rej_quick="small", rej_thorough="all", nvals_quick=[0],
+    "C06": dict(kinds=["pfsmin", "pfsmax"], dirs=["out", "in"], cyc=[False], flavours=ALL4, cmp=True,
+                families_thorough=[dict(nodes=3, vals=1, max_edges=3, rej="single", nvals=[0, 1, 2]),
+                                   dict(nodes=4, vals=1, max_edges=3, rej="none", nvals=[0, 1])]),
+    "C07": dict(kinds=ALLK, dirs=["out", "in"], cyc=[False, True], flavours=ALL4, rej_quick="small", rej_thorough="all", nvals_quick=[0], nvals_thorough=[0],
                 kinds_quick=["bfs", "dfs", "pfsmin", "pre", "post"]),
     "C08": dict(kinds=ALLK, dirs=["out", "in"], cyc=[False, True], flavours=["digraph", "sync_digraph"], nvals_quick=[0],
-                record_dirs=["in"], record_scale=4),
-    "C09": dict(kinds=["bfs", "dfs", "pfsmin", "pfsmax"], dirs=["out", "in"], cyc=[True], flavours=ALL4),
+                record_dirs=["in"], record_scale=4,
+                families_thorough=[dict(nodes=3, vals=1, max_edges=3, rej="small", nvals=[0, 1]),
+                                   dict(nodes=4, vals=1, max_edges=3, rej="none", nvals=[0])]),
+    "C09": dict(kinds=["bfs", "dfs", "pfsmin", "pfsmax"], dirs=["out", "in"], cyc=[True], flavours=ALL4, nvals_thorough=[0, 1]),
     "C10": dict(kinds=["pre", "post"], dirs=["out", "in"], cyc=[False], flavours=ALL4),
 }
 TIERS = {
@@ -134,7 +138,7 @@ def run(pid, tier, seed):
     dirs = sorted({vlib.DIRECTED[f] for f in flavours}, reverse=True)
     states = transitions = cases = execs = nontriv = drift = 0
     models = []
-    for fi, fam in enumerate(T["families"]):
+    for fi, fam in enumerate(conf.get("families_" + tier, T["families"])):
         if conf.get("rej_" + tier):
             fam = dict(fam, rej=conf["rej_" + tier])
         if conf.get("nvals_" + tier):
